@@ -31,9 +31,9 @@ OBLIGATIONS = [
     'C18.exMC_column', 'C18.exMC_feedback_edge', 'C18.exMC_feedback_is_cycle', 'C18.exMC_pass', 'C18.exMC_passWire_ok', 'C18.ex_tracks',
     # pin geometry of the symbol classes (model Schem.Pins, stream pin-model) and its composition with the placement model
     'C18.lastIdx_nodup', 'C18.pins_injective', 'C18.pins_injective_iff', 'C18.pins_injective_realizable', 'C18.binop3_collision',
-    'C18.binop_only_collision', 'C18.same_name_same_pos', 'C18.pins_in_box', 'C18.pins_tidy_realizable', 'C18.scope4_outside',
-    'C18.scope4_meets_marker', 'C18.std_roomy', 'C18.sym_pins_injective', 'C18.pins_apart_of_placement', 'C18.pinPos_injective',
-    'C18.vertical_run_misses_pins', 'C18.ex_addco_injective', 'C18.ex_shapes_ok', 'C18.ex_pinPos_hyps', 'C18.ex_pins_distinct', 'C18.exScope_counterexample', 'C18.exScope_shape',
+    'C18.binop_only_collision', 'C18.same_name_same_pos', 'C18.pins_in_box', 'C18.pins_tidy_realizable', 'C18.pins_in_box_realizable', 'C18.scope_pins_in_box',
+    'C18.scope4_outside_old', 'C18.scope4_meets_marker_old', 'C18.std_roomy', 'C18.sym_pins_injective', 'C18.pins_apart_of_placement', 'C18.pinPos_injective',
+    'C18.vertical_run_misses_pins', 'C18.ex_addco_injective', 'C18.ex_shapes_ok', 'C18.ex_pinPos_hyps', 'C18.ex_pins_distinct', 'C18.exScopeOld_counterexample', 'C18.exScopeOld_shape', 'C18.exScopeFixed_holds',
 ]
 
 # proposals for /verif/known_findings.json (the integrator merges them); applied locally until they are listed there.
@@ -66,7 +66,9 @@ PROPOSED_FINDINGS = [
      "what": "an instance reading its own output: in column 1 insertFeedback hits assert(sinkcol > 0) after deleting the net (the reader is "
              "left unconnected, a marker is left outside the grid); in later columns the last feedback segment is drawn straight "
              "through the neighbouring column, over pins of other wires"},
-    {"id": "C18-scope-pin-below-box", "property": "C18", "status": "known", "anchor": "py4hw/schematic_symbols.py:700",
+    # FIXED in /repo 0891c9c (ScopeSymbol.getHeight = max(80, LogicSymbol.getHeight(self))): a fixed entry suppresses nothing; its former
+    # witness still runs at every check (corpus stream) and the class is explored by the stream scope-rows: a recurrence is a VIOLATION
+    {"id": "C18-scope-pin-below-box", "property": "C18", "status": "fixed", "commit": "0891c9c", "anchor": "py4hw/schematic_symbols.py:700",
      "class_expr": "r.get('stage') == 'check' and r['feat']['scope4'] > 0 and set(r['kinds']) <= {'foreignPin'} and len(r['fp_hits']) > 0 and "
                    "all(h[0] in ('Scope', 'Waveform') and h[1] == 'in' and h[2] >= 3 for h in r['fp_hits'])",
      "witness": {"kind": "plan", "w": 4, "nin": 4, "nfree": 0, "outs": [["n", 1, 0]], "nodes": [
@@ -447,9 +449,9 @@ def fail_or_known(res, what, replay):
     yet listed in known_findings.json is applied from here; a LISTED entry whose class_expr is broader than the (sharpened) one here
     must not mask a failure that the sharpened class excludes — such a failure is recorded as a violation"""
     listed = {k.get('id') for k in load_known()}
-    mine = {k['id'] for k in PROPOSED_FINDINGS}
+    mine = {k['id'] for k in PROPOSED_FINDINGS}          # a listed entry that is 'fixed' here no longer excuses anything either
     for k in PROPOSED_FINDINGS:
-        if common._matches(k, what, replay):
+        if k.get('status') == 'known' and common._matches(k, what, replay):
             if k['id'] not in listed:
                 res.known_hits.append((k, what))
                 note = f"{k['id']} pending merge into known_findings.json; class predicate applied from harness/c18.py"
@@ -461,8 +463,8 @@ def fail_or_known(res, what, replay):
             return len(res.failures) == n
     for k in load_known():
         if k.get('property') == 'C18' and k.get('id') in mine and common._matches(k, what, replay):
-            note = (f"{k['id']}: the class_expr listed in known_findings.json is broader than the one in harness/c18.py; a failure outside the "
-                    f"sharpened class is reported as a violation")
+            note = (f"{k['id']}: known_findings.json excuses more than harness/c18.py does (broader class_expr, or fixed here); a failure outside "
+                    f"the harness' classes is reported as a violation")
             if note not in res.notes:
                 res.notes.append(note)
             res.failures.append({'what': what, 'replay': replay})
@@ -1147,8 +1149,8 @@ def main(res, tier, rng, replay):
     # ---- every symbol class of schematic_symbols.py, enumerated from the module, with every optional-port variant of its logic class
     required = symbol_class_stream(res, B)
 
-    # ---- a monitor (Scope) with 1..6 inputs in a column crossed by pass-through chains: its pins hang below its box from the fourth
-    #      on (theorem scope4_outside; class of the finding C18-scope-pin-below-box, anything else is a violation)
+    # ---- a monitor (Scope) with 1..6 inputs in a column crossed by pass-through chains: before /repo 0891c9c its pins hung below its box
+    #      from the fourth on (theorem scope4_outside_old, finding C18-scope-pin-below-box, now FIXED: every one of these must hold)
     for n in range(1, 7):
         for v in range(2 if quick else 6):
             r = rng.fork(('scope', n, v))
